@@ -1,6 +1,7 @@
 import MoPepGen.Lemmas.Regex
 import MoPepGen.Lemmas.Pairing
 import MoPepGen.Lemmas.DigestPos
+import MoPepGen.Lemmas.WingsLocal
 import MoPepGen.Generated.Expasy
 /-!
 # C10 — canonical pool = exact in-silico digest of the proteome
@@ -771,6 +772,320 @@ theorem wings_cover_partial :
        "ntcb"] := by
   decide
 
+/-! ## the local range search (`get_local_matched_range`,
+`iter_enzymatic_cleave_sites_with_range_local`)
+
+Models: `localLoop` / `getLocalMatchedRange` / `cleaveSitesWithRangeLocal`
+(Model/WingsLocal.lean, streams `glocal`, `ilocal`).  For ALL rules, strings, positions and wings:
+
+* `localRange_fuel_stable` — the loop terminates: the fuel of the model is never used up and
+  any larger fuel gives the same result;
+* `local_range_sound` — a returned range lies in the window, straddles the site as the start
+  cursors intend, and carries a rule match of the whole string with its full window inside;
+* `local_range_first` / `local_range_raises_iff` — exact characterisation: the result is the
+  first segment of the cursor schedule `localSched` that carries a match, provided no earlier
+  segment left the window; it raises iff the schedule leaves the window first;
+  `local_sched_closed` gives the schedule in closed form, `local_sched_nested` its monotonicity;
+* `local_range_cover_finds` — for a wings entry that covers the rule, is balanced and has
+  `w.2 ≤ w.1` (`wingsLocalOK`; `wings_localOK_table`: all table entries but the 8 of
+  `wings_cover_partial`) the search never raises at a rule site, and the result is inside every
+  in-window scheduled segment that covers the `rangeSpec` range of the site;
+  the `example`s below show that neither `rangeSpec range ⊆ result` nor equality holds in
+  general, and that each of the three conditions is needed. -/
+
+/-- **Termination.**  With the fuel `getLocalMatchedRange` passes (`w.1 + w.2 + 2`) the loop
+ends by `break` or by a found pattern, and every larger fuel gives the same final cursors. -/
+theorem localRange_fuel_stable (p : Re) (s : Pep) (site : Nat) (w : Nat × Nat) (fuel : Nat)
+    (h : localFuel w ≤ fuel) :
+    (getLocalMatchedRange p s site w).isSome = true ∧
+    localLoop p s site (localUpper site w) (localLower s site w) fuel
+        (localStart site w).1 (localStart site w).2 =
+      localLoop p s site (localUpper site w) (localLower s site w) (localFuel w)
+        (localStart site w).1 (localStart site w).2 := by
+  have hs := localLoop_isSome p s site (localUpper site w) (localLower s site w) (localFuel w)
+    (localStart site w).1 (localStart site w).2 (localStart_measure s site w)
+  obtain ⟨r, hr⟩ := Option.isSome_iff_exists.mp hs
+  constructor
+  · simp only [getLocalMatchedRange, hr]
+    obtain ⟨u, l, f⟩ := r
+    cases f <;> rfl
+  · rw [hr]
+    exact localLoop_mono_le _ _ _ _ _ _ _ _ _ _ h hr
+
+/-- **Soundness.**  A returned range `(u, l)` lies inside the window
+`[max(site-w0,0), min(site+w1,|s|)]`, is non-empty, contains the residue before the site
+(`w0 ≥ w1`) resp. the residue after it (`w0 < w1`) — the start cursors — and some alternative of
+the rule matches in the WHOLE string `s` with look-behind, consumed residue and look-ahead all
+inside `[u, l)`. -/
+theorem local_range_sound (p : Re) (s : Pep) (site : Nat) (w : Nat × Nat) (u l : Nat)
+    (h : getLocalMatchedRange p s site w = some (some (u, l))) :
+    site - w.1 ≤ u ∧ u < l ∧ l ≤ min (site + w.2) s.length ∧
+    (w.2 ≤ w.1 → u + 1 ≤ site ∧ site ≤ l) ∧ (w.1 < w.2 → u ≤ site ∧ site + 1 ≤ l) ∧
+    p.search (slice s u l) = true ∧
+    ∃ a, a ∈ p ∧ ∃ j, a.matchAt s j = true ∧ u + a.lb.length ≤ j ∧ j + 1 + a.la.length ≤ l := by
+  obtain ⟨u', l', hl, rfl, rfl⟩ := (getLocal_some_iff p s site w u l).mp h
+  obtain ⟨k, _, hs, _, hf⟩ := localLoop_spec _ _ _ _ _ _ _ _ _ _ _ hl
+  simp only [if_true, inWin, Bool.and_eq_true, decide_eq_true_eq, segOf] at hf
+  obtain ⟨⟨⟨h1, h2⟩, h3⟩, h4⟩ := hf
+  have hm := localSched_mono site (localLower s site w) (localStart site w) 0 k (Nat.zero_le _)
+  simp only [hs, localSched] at hm
+  simp only [localUpper] at h1
+  simp only [localLower] at h3
+  have hlen : l'.toNat ≤ s.length := by omega
+  refine ⟨by omega, by omega, by omega, ?_, ?_, h4, (Re.search_slice_iff p s _ _ hlen).mp h4⟩
+  · intro hw
+    simp only [localStart, ge_iff_le, hw, if_true] at hm
+    omega
+  · intro hw
+    have : ¬ (w.1 ≥ w.2) := by omega
+    simp only [localStart, this, if_false] at hm
+    omega
+
+/-- **Characterisation of the returned range.**  `(u, l)` is returned iff it is the `k`-th segment
+of the cursor schedule (`localSched`: widen by one per pass, left cursor if
+`site - ucur ≤ lcur - site` or the right one sits at `lower`, else the right cursor) for the FIRST
+`k` whose segment `s[u:l)` carries a match, all earlier segments — and this one — being inside
+the window. -/
+theorem local_range_first (p : Re) (s : Pep) (site : Nat) (w : Nat × Nat) (u l : Nat) :
+    getLocalMatchedRange p s site w = some (some (u, l)) ↔
+      ∃ k, localSched site (localLower s site w) (localStart site w) k = ((u : Int), (l : Int)) ∧
+        NoHitBefore p s site (localUpper site w) (localLower s site w) (localStart site w) k ∧
+        inWin (localUpper site w) (localLower s site w) u l = true ∧
+        p.search (slice s u l) = true := by
+  constructor
+  · intro h
+    obtain ⟨u', l', hl, rfl, rfl⟩ := (getLocal_some_iff p s site w u l).mp h
+    obtain ⟨k, _, hs, hn, hf⟩ := localLoop_spec _ _ _ _ _ _ _ _ _ _ _ hl
+    simp only [if_true, segOf] at hf
+    have hw := hf.1
+    simp only [inWin, Bool.and_eq_true, decide_eq_true_eq] at hw
+    simp only [localUpper] at hw
+    have e1 : ((u'.toNat : Nat) : Int) = u' := by omega
+    have e2 : ((l'.toNat : Nat) : Int) = l' := by omega
+    exact ⟨k, by rw [hs, e1, e2], hn, by rw [e1, e2]; exact hf.1, hf.2⟩
+  · rintro ⟨k, hs, hn, hw, hf⟩
+    have hsome := (localRange_fuel_stable p s site w _ (Nat.le_refl _)).1
+    have ek : inWin (localUpper site w) (localLower s site w)
+          (localSched site (localLower s site w) (localStart site w) k).1
+          (localSched site (localLower s site w) (localStart site w) k).2 = false ∨
+        p.search (segOf s (localSched site (localLower s site w) (localStart site w) k)) = true := by
+      right; rw [hs]; simpa [segOf] using hf
+    cases hr : getLocalMatchedRange p s site w with
+    | none => rw [hr] at hsome; cases hsome
+    | some r =>
+      cases r with
+      | none =>
+        obtain ⟨u', l', hl⟩ := (getLocal_raise_iff p s site w).mp hr
+        obtain ⟨k', _, hs', hn', hf'⟩ := localLoop_spec _ _ _ _ _ _ _ _ _ _ _ hl
+        simp only [Bool.false_eq_true, if_false] at hf'
+        have := firstExit_unique p s site _ _ _ k k' hn ek hn' (by left; rw [hs']; exact hf')
+        subst this
+        rw [hs] at hs'
+        simp only [Prod.mk.injEq] at hs'
+        rw [← hs'.1, ← hs'.2, hw] at hf'
+        cases hf'
+      | some ul =>
+        obtain ⟨u2, l2⟩ := ul
+        obtain ⟨u', l', hl, rfl, rfl⟩ := (getLocal_some_iff p s site w u2 l2).mp hr
+        obtain ⟨k', _, hs', hn', hf'⟩ := localLoop_spec _ _ _ _ _ _ _ _ _ _ _ hl
+        simp only [if_true] at hf'
+        have := firstExit_unique p s site _ _ _ k k' hn ek hn' (by right; rw [hs']; exact hf'.2)
+        subst this
+        rw [hs] at hs'
+        simp only [Prod.mk.injEq] at hs'
+        rw [← hs'.1, ← hs'.2]
+        simp
+
+/-- **When it raises.**  `ValueError("Cannot extract matched pattern …")` iff the schedule
+leaves the window (`upper ≤ ucur < lcur ≤ lower` fails) before any segment carried a match —
+in particular as soon as the LEFT cursor passes `upper`, even when the right one could still
+move. -/
+theorem local_range_raises_iff (p : Re) (s : Pep) (site : Nat) (w : Nat × Nat) :
+    getLocalMatchedRange p s site w = some none ↔
+      ∃ k, NoHitBefore p s site (localUpper site w) (localLower s site w) (localStart site w) k ∧
+        inWin (localUpper site w) (localLower s site w)
+          (localSched site (localLower s site w) (localStart site w) k).1
+          (localSched site (localLower s site w) (localStart site w) k).2 = false := by
+  constructor
+  · intro h
+    obtain ⟨u', l', hl⟩ := (getLocal_raise_iff p s site w).mp h
+    obtain ⟨k, _, hs, hn, hf⟩ := localLoop_spec _ _ _ _ _ _ _ _ _ _ _ hl
+    simp only [Bool.false_eq_true, if_false] at hf
+    exact ⟨k, hn, by rw [hs]; exact hf⟩
+  · rintro ⟨k, hn, hw⟩
+    have hsome := (localRange_fuel_stable p s site w _ (Nat.le_refl _)).1
+    cases hr : getLocalMatchedRange p s site w with
+    | none => rw [hr] at hsome; cases hsome
+    | some r =>
+      cases r with
+      | none => rfl
+      | some ul =>
+        obtain ⟨u2, l2⟩ := ul
+        obtain ⟨u', l', hl, rfl, rfl⟩ := (getLocal_some_iff p s site w u2 l2).mp hr
+        obtain ⟨k', _, hs', hn', hf'⟩ := localLoop_spec _ _ _ _ _ _ _ _ _ _ _ hl
+        simp only [if_true] at hf'
+        have := firstExit_unique p s site _ _ _ k k' hn (Or.inl hw) hn'
+          (by right; rw [hs']; exact hf'.2)
+        subst this
+        rw [hs'] at hw
+        rw [hf'.1] at hw
+        cases hw
+
+/-- the scheduled segments are nested: later ones contain earlier ones, and the `k`-th is `k`
+residues wider than the first -/
+theorem local_sched_nested (site lower : Int) (c0 : Int × Int) (k j : Nat) (h : k ≤ j) :
+    (localSched site lower c0 j).1 ≤ (localSched site lower c0 k).1 ∧
+    (localSched site lower c0 k).2 ≤ (localSched site lower c0 j).2 ∧
+    (localSched site lower c0 k).2 - (localSched site lower c0 k).1 = c0.2 - c0.1 + k :=
+  ⟨(localSched_mono site lower c0 k j h).1, (localSched_mono site lower c0 k j h).2,
+    localSched_width site lower c0 k⟩
+
+/-- **Closed form of the schedule.**  Start `(site-1, site)` (`b0 = 0`, i.e. `w0 ≥ w1`) or
+`(site, site+1)` (`b0 = 1`), `B = lower - site ≥ b0` residues to the right: the `k`-th segment is
+`[site - (k+1-b), site + b)` with `b = min (max b0 ⌈k/2⌉) B`.  (`b0 > B` only for `w0 < w1` at
+`site + 1 > lower`, where the loop breaks at once.) -/
+theorem local_sched_closed (site : Int) (b0 B : Nat) (h0 : b0 ≤ 1) (hB : b0 ≤ B) (k : Nat) :
+    localSched site (site + (B : Int)) (site - ((1 - b0 : Nat) : Int), site + (b0 : Int)) k =
+      (site - ((k + 1 - min (max b0 ((k + 1) / 2)) B : Nat) : Int),
+        site + ((min (max b0 ((k + 1) / 2)) B : Nat) : Int)) :=
+  localSched_closed site b0 B h0 hB k
+
+/-- decidable condition under which the local search succeeds at every rule site: the entry
+covers the rule (`wingsCover`), no alternative looks further ahead than behind + 1
+(`Re.balanced`), and the right wing is not the longer one -/
+def wingsLocalOK (r : Re) (w : Nat × Nat) : Bool := wingsCover r w && r.balanced && decide (w.2 ≤ w.1)
+
+/-- The table entries that are NOT `wingsLocalOK` are exactly the eight non-covering ones of
+`wings_cover_partial`; every other entry is. -/
+theorem wings_localOK_table :
+    (Generated.expasyRules.filter fun e =>
+        !(wingsLocalOK e.2 ((Generated.expasyWings.lookup e.1).getD (0, 0)))).map (·.1) =
+      ["asp-n", "caspase 2", "caspase 3", "caspase 4", "caspase 5", "caspase 6", "caspase 7",
+       "ntcb"] := by
+  decide
+
+theorem Alt.matchAt_room {a : Alt} {s : Pep} {i : Nat} (h : a.matchAt s i = true) :
+    a.lb.length ≤ i ∧ i + 1 + a.la.length ≤ s.length := by
+  have h1 := ((Alt.matchAt_iff a s i).mp h).1
+  have h2 := clsSeq_length ((Alt.matchAt_iff a s i).mp h).2
+  rw [Alt.flat_length, List.length_drop] at h2
+  simp only [Alt.width] at h2
+  omega
+
+/-- **Covering wings: the search finds the pattern, inside the first covering segment.**
+For a `wingsLocalOK` entry and a position `site` at which the rule matches (`isSite` without
+exception), `get_local_matched_range` does not raise, and its result `(u, l)` is contained in
+every in-window segment of the schedule that covers the `rangeSpec` range
+`rule.matchRange s site` of that site (such a segment exists; the result is the first segment
+with ANY match, `local_range_first`, hence never later than the first covering one). -/
+theorem local_range_cover_finds (rule : Re) (w : Nat × Nat) (hw : wingsLocalOK rule w = true)
+    (s : Pep) (site : Nat) (hi : isSite rule none s site = true) :
+    ∃ u l, getLocalMatchedRange rule s site w = some (some (u, l)) ∧
+      ∀ j, inWin (localUpper site w) (localLower s site w)
+          (localSched site (localLower s site w) (localStart site w) j).1
+          (localSched site (localLower s site w) (localStart site w) j).2 = true →
+        (localSched site (localLower s site w) (localStart site w) j).1 ≤ (rule.matchRange s site).1 →
+        ((rule.matchRange s site).2 : Int) ≤ (localSched site (localLower s site w) (localStart site w) j).2 →
+        (localSched site (localLower s site w) (localStart site w) j).1 ≤ u ∧
+          (l : Int) ≤ (localSched site (localLower s site w) (localStart site w) j).2 := by
+  simp only [wingsLocalOK, Bool.and_eq_true, decide_eq_true_eq, wingsCover_iff] at hw
+  obtain ⟨⟨⟨hc1, hc2⟩, hbal⟩, hw21⟩ := hw
+  simp only [isSite, Bool.and_eq_true, decide_eq_true_eq, Bool.not_false, and_true] at hi
+  obtain ⟨hpos, hm⟩ := hi
+  obtain ⟨a0, ha0, ma0⟩ := List.any_eq_true.mp hm
+  cases hf : rule.find? (·.matchAt s (site - 1)) with
+  | none => exact absurd ma0 (by simpa using List.find?_eq_none.mp hf a0 ha0)
+  | some a =>
+    have ha := List.mem_of_find?_eq_some hf
+    have ma : a.matchAt s (site - 1) = true := by
+      have := List.find?_some hf
+      exact this
+    have hroom := Alt.matchAt_room ma
+    have hlb := le_lbBound ha
+    have hla := le_laBound ha
+    have hb : a.la.length ≤ a.lb.length + 1 := by
+      have := List.all_eq_true.mp hbal a ha
+      simpa using this
+    have hR : rule.matchRange s site = (site - 1 - a.lb.length, site + a.la.length) := by
+      simp only [Re.matchRange, hf]
+    -- every in-window segment covering the range carries a match
+    have hcov : ∀ u l : Int, localUpper site w ≤ u → u ≤ ((site - 1 - a.lb.length : Nat) : Int) →
+        ((site + a.la.length : Nat) : Int) ≤ l → l ≤ localLower s site w →
+        rule.search (slice s u.toNat l.toNat) = true := by
+      intro u l h1 h2 h3 h4
+      have hlen : l.toNat ≤ s.length := by simp only [localLower] at h4; omega
+      rw [Re.search_slice_iff rule s _ _ hlen]
+      simp only [localUpper] at h1
+      exact ⟨a, ha, site - 1, ma, by omega, by omega⟩
+    have hin : inWin (localUpper site w) (localLower s site w) (localStart site w).1
+        (localStart site w).2 = true := by
+      have : w.1 ≥ w.2 := hw21
+      simp only [inWin, localStart, this, if_true, Bool.and_eq_true, decide_eq_true_eq]
+      simp only [localUpper, localLower]
+      omega
+    have hsome := (localRange_fuel_stable rule s site w _ (Nat.le_refl _)).1
+    cases hr : getLocalMatchedRange rule s site w with
+    | none => rw [hr] at hsome; cases hsome
+    | some r =>
+      cases r with
+      | none =>
+        exfalso
+        obtain ⟨u', l', hl⟩ := (getLocal_raise_iff rule s site w).mp hr
+        have := localLoop_finds rule s site _ _ _ _ hcov (by omega)
+          (by simp only [localUpper]; omega) (by simp only [localLower]; omega) _ _ _ hin _ hl
+        cases this
+      | some ul =>
+        obtain ⟨u, l⟩ := ul
+        refine ⟨u, l, rfl, ?_⟩
+        intro j hj h1 h2
+        obtain ⟨k, hs, hn, _, _⟩ := (local_range_first rule s site w u l).mp hr
+        rw [hR] at h1 h2
+        have hjw := hj
+        simp only [inWin, Bool.and_eq_true, decide_eq_true_eq] at hjw
+        have hfound := hcov _ _ hjw.1.1 h1 h2 hjw.2
+        have hkj : k ≤ j := by
+          rcases Nat.lt_or_ge j k with hlt | hge
+          · have := (hn j hlt).2
+            simp only [segOf] at this
+            rw [this] at hfound; cases hfound
+          · exact hge
+        have := localSched_mono site (localLower s site w) (localStart site w) k j hkj
+        rw [hs] at this
+        exact this
+
+/-- **`iter_enzymatic_cleave_sites_with_range_local`, when it returns.**  For every rule,
+exception, wings entry and string: the sites it yields are exactly the ExPASy sites
+(`cleaveSites`, = `isSite` by `sites_eq_isSite`), in order, and each is paired with what
+`get_local_matched_range` returns for it (to which `local_range_sound/first` apply). -/
+theorem local_iter_spec (rule : Re) (exc : Option Re) (w : Nat × Nat) (s : Pep)
+    (l : List (Nat × (Nat × Nat))) (h : cleaveSitesWithRangeLocal rule exc w s = .ok l) :
+    l.map (·.1) = cleaveSites rule exc s ∧
+    ∀ q, q ∈ l → getLocalMatchedRange rule s q.1 w = some (some q.2) := by
+  simp only [cleaveSitesWithRangeLocal] at h
+  split at h
+  · cases h
+  · exact localSitesLoop_ok rule _ w s _ l h
+
+/-- **… and it does return for a `wingsLocalOK` entry** (every table entry but the eight of
+`wings_localOK_table`), for every exception and every string. -/
+theorem local_iter_cover_ok (rule : Re) (exc : Option Re) (w : Nat × Nat)
+    (hw : wingsLocalOK rule w = true) (s : Pep) :
+    ∃ l, cleaveSitesWithRangeLocal rule exc w s = .ok l := by
+  have hw' := hw
+  simp only [wingsLocalOK, Bool.and_eq_true, decide_eq_true_eq, wingsCover_iff] at hw'
+  have h0 : (w.1 == 0 && w.2 == 0) = false := by
+    have : w.1 ≠ 0 := by omega
+    simp [this]
+  simp only [cleaveSitesWithRangeLocal, h0, Bool.false_eq_true, if_false]
+  apply localSitesLoop_total
+  intro x hx
+  have hsite : isSite rule none s x = true := by
+    have : x ∈ cleaveSites rule none s := by simpa [cleaveSites, excEnds] using hx
+    rw [sites_eq_isSite] at this
+    exact (List.mem_filter.mp this).2
+  obtain ⟨u, l, h, _⟩ := local_range_cover_finds rule w hw s x hsite
+  exact ⟨(u, l), h⟩
+
 /-! ## non-vacuity -/
 
 example : (Generated.expasyRules.lookup "trypsin").isSome = true := by decide
@@ -817,5 +1132,43 @@ example : (Generated.expasyRules.lookup "trypsin").map (fun r => wingsCover r (2
   decide
 example : (Generated.expasyRules.lookup "caspase 2").map (fun r => wingsCover r (2, 1)) = some false := by
   decide
+
+-- local range search: a rule / wings pair for the examples
+def exLbK : Re := [{ lb := [Cls.pos ['A']], core := Cls.pos ['K'], la := [] },
+  { lb := [], core := Cls.pos ['C'], la := [] }]            -- `(?<=A)K|C`
+def exLb2K : Re := [{ lb := [Cls.pos ['A'], Cls.pos ['A']], core := Cls.pos ['K'], la := [] }]  -- `(?<=AA)K`
+def exLa2K : Re := [{ lb := [], core := Cls.pos ['K'], la := [Cls.pos ['A'], Cls.pos ['A']] }]  -- `K(?=AA)`
+def exK : Re := [{ lb := [], core := Cls.pos ['K'], la := [] }]                                  -- `K`
+-- trypsin, `(2, 1)`: the hypotheses of `local_range_cover_finds` hold and the result is the `rangeSpec` range
+example : ∃ r, Generated.expasyRules.lookup "trypsin" = some r ∧ wingsLocalOK r (2, 1) = true ∧
+    isSite r none "TTWKPT".toList 4 = true ∧
+    getLocalMatchedRange r "TTWKPT".toList 4 (2, 1) = some (some (2, 5)) ∧
+    r.matchRange "TTWKPT".toList 4 = (2, 5) := ⟨_, rfl, by decide⟩
+-- the `rangeSpec` range is NOT always contained in the result: `(?<=A)K|C` (pairOK, covered by (2,1),
+-- balanced) on `AKC` at site 2 — the search stops at `KC` because `C` matches there
+example : wingsLocalOK exLbK (2, 1) = true ∧ exLbK.pairOK = true ∧ isSite exLbK none "AKC".toList 2 = true ∧
+    getLocalMatchedRange exLbK "AKC".toList 2 (2, 1) = some (some (1, 3)) ∧
+    exLbK.matchRange "AKC".toList 2 = (0, 2) := by decide
+-- … nor is the result always contained in it (no equality): `(?<=AA)K` with the covering entry (3,1)
+example : wingsLocalOK exLb2K (3, 1) = true ∧ isSite exLb2K none "AAKT".toList 3 = true ∧
+    getLocalMatchedRange exLb2K "AAKT".toList 3 (3, 1) = some (some (0, 4)) ∧
+    exLb2K.matchRange "AAKT".toList 3 = (0, 3) := by decide
+-- each condition of `wingsLocalOK` is needed.  Covering but not balanced: `K(?=AA)`, (2,2), raises
+-- at the site of `KAA` (the left cursor passes 0 before the right one has reached the second `A`)
+example : wingsCover exLa2K (2, 2) = true ∧ exLa2K.balanced = false ∧ isSite exLa2K none "KAA".toList 1 = true ∧
+    getLocalMatchedRange exLa2K "KAA".toList 1 (2, 2) = some none := by decide
+-- covering and balanced, right wing longer: `K`, (1,2), raises at the last residue
+example : wingsCover exK (1, 2) = true ∧ exK.balanced = true ∧ isSite exK none "K".toList 1 = true ∧
+    getLocalMatchedRange exK "K".toList 1 (1, 2) = some none := by decide
+-- not covering (the table's `caspase 2` entry): raises
+example : (Generated.expasyRules.lookup "caspase 2").map (fun r =>
+    (isSite r none "DVADA".toList 4, getLocalMatchedRange r "DVADA".toList 4 (2, 1))) =
+    some (true, some none) := by decide
+-- the schedule in closed form, `(2,1)` at site 4 of a long string: left/right in turn, left first
+example : (List.range 4).map (localSched 4 5 (3, 4)) = [(3, 4), (3, 5), (2, 5), (1, 5)] := by decide
+-- the whole-function model on trypsin with its exception
+example : ∃ r, Generated.expasyRules.lookup "trypsin" = some r ∧
+    (match cleaveSitesWithRangeLocal r none (2, 1) "TTTMRPKTT".toList with
+      | .ok l => l == [(5, (3, 6)), (7, (6, 8))] | .error _ => false) = true := ⟨_, rfl, by decide⟩
 
 end MoPepGen.Props.C10
